@@ -229,6 +229,13 @@ pub fn lane_gate(ctx: &mut Ctx) {
                     crate::mon::check_c20(&mut h, ctx);
                 }
             } else {
+                if h.rng.chance(1, 8) {
+                    // announced headers and the flags survive an upgrade
+                    if !h.upgrade(ctx) {
+                        break;
+                    }
+                    ctx.cov.count("c14_upgrades");
+                }
                 matrix(&mut h, ctx);
             }
         }
